@@ -45,6 +45,13 @@ PROPS['C03'] = {
 PROPS['C11'] = {
     'level': 'proof',
     'verus': [{'unit': 'table'}],
+    'kani': {
+        'files': {'src/types.rs': ['kani/types.rs']},
+        'harnesses': [
+            K('types::__verif_types::', 'range_matches_is_prefix_match', 'Range::matches == same length and first prefix_len bits agree (false if prefix_len > 8*len), bit-by-bit reference, every base/address/length 0..=16/prefix 0..=255', fns=['types::Range::matches']),
+            K('types::__verif_types::', 'address_eq_is_prefix_equality', 'Address::eq == same length and same first len bytes', fns=['types::Address::eq']),
+        ],
+    },
     'trusted': [
         'vstd HashMap model with builds_valid_hashers::<BuildHasherDefault<FnvHasher>>() and obeys_key_model::<Address>() as axioms',
         'clock values lie in [0, 2^48)',
@@ -155,6 +162,37 @@ PROPS['C04'] = {
     'not_decided': ['whole-lifetime schedules of both ends (simultaneous open, renegotiation): the contracts are per key object and per handshake step'],
 }
 
+TY = 'types::__verif_types::'
+PROPS['C16'] = {
+    'level': 'proof',
+    'level_text': 'ONLY the fixed-size layer of the codecs is decided: Address / Range encode-decode round trip and totality (Kani, full domain). The variable-length messages (NodeInfo, InitMsg, RotationMessage), which are most of this property, are not decided.',
+    'kani': {
+        'files': {'src/types.rs': ['kani/types.rs']},
+        'harnesses': [
+            K(TY, 'range_codec_round_trip', 'Range::read_from(Range::write_to(r)) == r for every address length 0..=16, content and prefix 0..=255; encoding is len+2 bytes; decoded address canonical', fns=['types::Range::write_to', 'types::Range::read_from', 'types::Address::write_to', 'types::Address::read_from', 'types::Address::read_from_fixed']),
+            K(TY, 'range_decode_total', 'Range::read_from on every byte string of length <= 20: value or error, never a panic; Ok only when len <= 16 and len+2 bytes are present', fns=['types::Range::read_from']),
+            K(TY, 'address_read_from_fixed_contract', 'Address::read_from_fixed: len > 16 or short input => Err; else exactly the next len bytes, rest zero', fns=['types::Address::read_from_fixed']),
+        ],
+    },
+    'trusted': ['std::io::Cursor / byteorder as compiled by Kani (real code, not stubbed)'],
+    'not_decided': [
+        'NodeInfo::decode / encode round trip and normalisation (SmallVec, Take, loops over parts): Kani did not finish on 12 symbolic bytes; Verus would need a trusted model of io::Read',
+        'InitMsg::read_from / write_to, RotationMessage::read_from / write_to',
+        'skipping of unknown parts; decoder totality on arbitrary bytes for the variable-length messages',
+    ],
+}
+PROPS['C20'] = {
+    'level': 'proof',
+    'kani': {
+        'files': {'src/main.rs': ['kani/netmask.rs.in']},
+        'harnesses': [
+            K('__verif_netmask::', 'netmask_for_every_prefix_length', 'parse_ip_netmask blocks (range guard + netmask expression): every u8 prefix length: > 32 => Err, else mask with that many leading ones, never a panic', fns=['main::parse_ip_netmask (blocks: guard, netmask expression)']),
+        ],
+    },
+    'trusted': ['structopt / serde_yaml produce the Args / ConfigFile values (text parsing not covered)', 'u8::from_str / Ipv4Addr::from_str / str::find in parse_ip_netmask are std parsing, not under contract'],
+    'not_decided': [],
+}
+
 NOT_APPLICABLE = {
     'C01': 'needs Ed25519 unforgeability plus InitMsg::read_from / InitState::handle_init, which neither back end reaches (150-line TLV parser over Cursor/SmallVec; ring key objects); no contract within reach expresses it',
     'C05': 'all-schedules agreement and recovery of two retransmitting state machines plus a liveness bound: a protocol-level joint invariant and liveness, outside per-function contracts',
@@ -166,9 +204,7 @@ NOT_APPLICABLE = {
     'C13': 'pending',
     'C14': 'convergence of N nodes is liveness over multi-node histories; the safety half lives in handle_init/connect (out of reach of both back ends)',
     'C15': 'pending',
-    'C16': 'pending',
     'C17': 'pending',
     'C18': 'pending',
     'C19': 'pending',
-    'C20': 'pending',
 }
